@@ -75,3 +75,21 @@ Theorem C05_trailing_comment_refuted :
 -- c
 ") = Ok stmts /\ List.length stmts = 2%nat.
 Proof. eexists. split; [vm_compute; reflexivity|reflexivity]. Qed.
+
+(* each opaque region is exactly ONE token of a type that is neither Keyword.* nor Punctuation (so, by
+   C05_opaque_values, a `;` inside it never ends a statement and its contents are irrelevant to the splitter).
+   These theorems start from pins of the CURRENT rules: an edited region rule breaks them. *)
+From SqlModel.Lexer Require Import RegionDefs Regions.
+Definition C05_single_quoted_lexed := single_quoted_lexed.
+Definition C05_double_quoted_lexed := double_quoted_lexed.
+Definition C05_backtick_lexed := backtick_lexed.
+Definition C05_block_comment_lexed := block_comment_lexed.
+Definition C05_line_comment_lexed := line_comment_lexed.
+Definition C05_dollar_quoted_lexed := dollar_quoted_lexed.
+Print Assumptions single_quoted_lexed.
+Print Assumptions dollar_quoted_lexed.
+Lemma C05_region_types_opaque :
+  opaque_ty [Literal; Base.String; Single] = true /\ opaque_ty [Literal; Base.String; Symbol] = true /\ opaque_ty [Name] = true
+  /\ opaque_ty [Literal] = true /\ opaque_ty [Comment; Multiline] = true /\ opaque_ty [Comment; Multiline; Hint] = true
+  /\ opaque_ty [Comment; Single] = true /\ opaque_ty [Comment; Single; Hint] = true.
+Proof. repeat split; reflexivity. Qed.
